@@ -610,6 +610,20 @@ pub fn generate_frame(rng: &mut Rng, thorough: bool) -> Vec<Case> {
             c.push(bytes.len() - 1);
             c
         };
+        // long frames cut where a chunked reader could have a boundary (powers of two behind any header
+        // length), with every way the stream can end there: the verdict is that of any other cut
+        if bytes.len() > 300 {
+            for hdr in 2..=5usize {
+                for k in [255usize, 256, 257, 512, 1024, 2048, 3072, 4096] {
+                    let cut = hdr + k;
+                    if cut >= bytes.len() { continue; }
+                    for term in 0..3u64 {
+                        cs.push(Case::new(203, vec![b2a(&bytes[..cut]), vec![], vec![term]], "prefix-on-chunk-boundary"));
+                    }
+                    cs.push(Case::new(201, vec![b2a(&bytes[..cut])], "prefix-on-chunk-boundary"));
+                }
+            }
+        }
         for cut in cuts {
             let p = &bytes[..cut];
             cs.push(Case::new(201, vec![b2a(p)], "prefix"));
